@@ -120,6 +120,35 @@ def run(ctx):
         got = IntegratePlanar.winding_number(seg, center=c)
         ctx.case("winding-contribution", ("wind", tuple(cp), c))
         ctx.check(abs(got - ref) < 1e-9, "winding contribution != subtended angle", {**desc, "center": c}, ref, got)
+    # segments of a curve that is scaled / rotated / moved in place after its derivative and projection were used
+    from shapepy import JordanCurve
+    from harness.props.c04 import rounded
+    from harness import shapes
+    for it in range(6 if ctx.quick else 150):
+        vs = shapes.rand_simple_vs(rng, 0, 0, R=5, n=rng.randint(3, 5))
+        segs = [[(float(x), float(y)) for x, y in c] for c in rounded(vs, cubic=(it % 2 == 1))]
+        J = JordanCurve.from_ctrlpoints(segs)
+        sg = J.segments[rng.randrange(len(J.segments))]
+        t = rng.choice([0.25, 0.5, 0.625])
+        sg.derivate()(t); sg.derivate(2)(t); (sg(t) in sg); (sg(0.3) in J)        # warm whatever can be cached
+        sx, sy = rng.choice([(3.0, 0.5), (0.25, 2.0), (-2.0, -2.0)])
+        J.scale(sx, sy)
+        if it % 2 == 0:
+            J.rotate(90, degrees=True)
+        J.move(1.5, -2.25)
+        cp = [tuple(map(float, p)) for p in sg.ctrlpoints]
+        es = core.eseg(cp)
+        ctx.case("owned-segment-after-transform", (repr(segs), sx, sy, t))
+        for kk in (1, 2):
+            got = sg.derivate(kk)(t)
+            exp = core.Toks(drv.ask(f"deriv {kk} {es} {core.er(t)}")).pt()
+            ctx.check(abs(float(got[0]) - float(exp[0])) < 1e-9 and abs(float(got[1]) - float(exp[1])) < 1e-9, "derivate(k) of a segment of a transformed curve is stale", {"ctrl": cp, "k": kk, "t": t}, exp, tuple(got))
+        got = sg(t)
+        exp = core.Toks(drv.ask(f"eval {es} {core.er(t)}")).pt()
+        ctx.check(abs(float(got[0]) - float(exp[0])) < 1e-9 and abs(float(got[1]) - float(exp[1])) < 1e-9, "segment(t) of a transformed curve is stale", {"ctrl": cp, "t": t}, exp, tuple(got))
+        ctx.check(sg(t) in sg and sg(0.3) in J, "segment(t) not in the segment of a transformed curve", {"ctrl": cp, "t": t})
+        b = sg.box()
+        ctx.check(all(p in b for p in [sg(u / 8) for u in range(9)]), "box() of a segment of a transformed curve does not contain it", {"ctrl": cp})
     # regular curved segments: segment(t) in segment (numerical projection)
     for it in range(20 if ctx.quick else 300):
         deg = rng.randint(2, 3)
@@ -130,3 +159,9 @@ def run(ctx):
         t = rng.random()
         ctx.case("curved-contains", ("curved-in", tuple(cp), t))
         ctx.check(seg(t) in seg, "segment(t) not in regular curved segment", {"ctrl": cp, "t": t})
+        tm = rng.uniform(0.2, 0.8)
+        c0, d0 = seg(tm), seg.derivate()(tm)
+        L = math.hypot(float(d0[0]), float(d0[1]))
+        for off in (3e-6, 1e-5, 1e-4, 5e-4):
+            q = (float(c0[0]) - off * float(d0[1]) / L, float(c0[1]) + off * float(d0[0]) / L)
+            ctx.check(q not in seg, "a point farther than the tolerance from a curved segment is `in` it", {"ctrl": cp, "t": tm, "offset": off})
